@@ -8,7 +8,7 @@ RULE = ('actors = {packer: pack_all_loose(compress no/yes/auto, clean_loose_per_
         'new and duplicate content}; switch points = every interposed file-system call and SQL statement. Layer 1 (exhaustive at depth 1): the '
         'whole client operation at EVERY boundary of the packer, and the whole packer cycle at EVERY boundary of each client operation. Layer 2: '
         'client paused at boundary j, packer advanced k1..k2, client finished (scripted on a thread scheduler that runs one actor at a time). '
-        'Layer 3: seeded random and PCT schedules with 1-3 writers, 1-3 readers, one packer. Every client result is judged against the objects '
+        'Layer 3: seeded random and PCT schedules with 1-3 writers, 1-3 readers, one packer. Layer 4: the same actors as real parallel processes with 0-2 ms delays injected at I/O events (acknowledgement in real time through per-writer logs). Every client result is judged against the objects '
         'acknowledged (add returned) when that client call started. Distinct = boundary placements / distinct traces (hash of the (actor, event) '
         'sequence).')
 ASSUMPTIONS = ['an interleaving is characterised by the order of the actors\' I/O calls (handles share no memory); threads stand for processes '
@@ -20,7 +20,7 @@ TECHNIQUE = 'runtime monitoring under a deterministic scheduler: exhaustive dept
 def run(ctx):
     for c in ('depth1-cases', 'boundaries-enumerated', 'client:index-requery-after-loose-miss', 'probe-between-commit-and-unlink',
               'probe-between-pack-write-and-commit', 'probe-after-some-loose-unlinked', 'depth2-cases', 'random-schedules',
-              'context-switches', 'op:seek', 'op:write-dup'):
+              'context-switches', 'op:seek', 'op:write-dup', 'multi-process-runs', 'multi-process-client-ops'):
         ctx.require(c)
     cases = []
     packers = conclab.PACKER_VARIANTS if not ctx.quick else [('no', False), ('yes', True), ('auto', True)]
@@ -43,6 +43,10 @@ def run(ctx):
     nrand = ctx.pick(320, 6000)
     per = 20
     ctx.map(conclab.run_random, [{'seed': ctx.seed * 7919 + i, 'n': per} for i in range(nrand // per)])
+    # layer 4: the same actors as real, genuinely parallel processes with small injected delays (cross-checks the scheduler's
+    # threads-for-processes assumption)
+    nmp = ctx.pick(16, 240)
+    ctx.map(conclab.run_multiprocess, [{'seed': ctx.seed * 104729 + i, 'n': 4} for i in range(nmp // 4)], workers=4)
 
 
 def replay(ctx, rep):
